@@ -176,6 +176,102 @@ fn check_word<N: Num4>(word: &[u8], ev: &mut Ev, case: u64, views: &[usize]) {
     }
 }
 
+/// "... so such an axis can never pass builder validation": every short relation word, with and
+/// without a NaN, as the axis of an Interp1D and as x / y of an Interp2D - owned, as views, and
+/// as two views of one table (same first element and length, different strides)
+fn builder_clause(ev: &mut Ev) {
+    use vh::ndarray::{Array2, ArrayView1};
+    use vh::ndarray_interp::interp1d::Interp1D;
+    use vh::ndarray_interp::interp2d::Interp2D;
+    let strictly_rising = |v: &[f64]| v.len() >= 2 && v.windows(2).all(|w| w[0] < w[1]);
+    let mut verdict = |what: String, built: Result<bool, String>, valid: bool, ev: &mut Ev, id: u64| {
+        ev.add("builder_clause_builds", 1);
+        match built {
+            Ok(ok) if ok == valid => {}
+            other => ev.violation(
+                "C12:invalid-axis-passes-builder",
+                &format!("{what}: build() -> {:?}, axis valid = {valid}", other.map(|ok| if ok { "Ok" } else { "Err" })),
+                id,
+                J::obj().set("what", what.as_str()),
+            ),
+        }
+    };
+    let mut id = 7_000_000u64;
+    // all words of 1..4 pairs, plain and with a NaN at each position
+    for len in 1..=4usize {
+        for idx in 0..3usize.pow(len as u32) {
+            let mut k = idx;
+            let word: Vec<u8> = (0..len).map(|_| { let c = (k % 3) as u8; k /= 3; c }).collect();
+            let base: Vec<f64> = values(&word).iter().map(|&i| i as f64 * 0.5).collect();
+            for nan_at in std::iter::once(None).chain((0..base.len()).map(Some)) {
+                let mut v = base.clone();
+                if let Some(p) = nan_at {
+                    v[p] = f64::NAN;
+                }
+                let valid = strictly_rising(&v);
+                let n = v.len();
+                id += 1;
+                let a = Array1::from(v.clone());
+                let d1 = Array1::<f64>::zeros(n);
+                verdict(format!("Interp1D axis {v:?} (owned)"), guard(|| Interp1D::builder(d1.clone()).x(a.clone()).build().is_ok()), valid, ev, id);
+                verdict(format!("Interp1D axis {v:?} (view)"), guard(|| Interp1D::builder(d1.view()).x(a.view()).build().is_ok()), valid, ev, id);
+                let good = Array1::from((0..n).map(|i| i as f64).collect::<Vec<_>>());
+                let d2 = Array2::<f64>::zeros((n, n));
+                verdict(format!("Interp2D y axis {v:?}, x valid"), guard(|| Interp2D::builder(d2.view()).x(good.view()).y(a.view()).build().is_ok()), valid, ev, id);
+                verdict(format!("Interp2D x axis {v:?}, y valid"), guard(|| Interp2D::builder(d2.view()).x(a.view()).y(good.view()).build().is_ok()), valid, ev, id);
+                // y = every second element of a table whose first n elements are a valid x
+                let mut table: Vec<f64> = vec![0.0; 2 * n - 1];
+                // t[2j] = v[j] fixes t[0], t[2], ..; x = t[..n] must be valid: fill the odd
+                // positions in between if possible, otherwise skip
+                for (j, &val) in v.iter().enumerate() {
+                    table[2 * j] = val;
+                }
+                for j in (1..2 * n - 1).step_by(2) {
+                    table[j] = (table[j - 1] + table[j + 1]) / 2.0;
+                }
+                let t = Array1::from(table);
+                let x: ArrayView1<f64> = t.slice(s![..n]);
+                if strictly_rising(&x.to_vec()) {
+                    let y = t.slice(s![..;2]);
+                    ev.add("builder_clause_aliased", 1);
+                    verdict(
+                        format!("Interp2D y axis {v:?} = t[..;2], x = t[..{n}] of the same table (valid)"),
+                        guard(|| Interp2D::builder(d2.view()).x(x).y(y).build().is_ok()),
+                        valid,
+                        ev,
+                        id,
+                    );
+                }
+            }
+        }
+    }
+    // aliased views where the invalid part lies beyond x: x = t[..n] rising, y = t[..;2] runs
+    // into a NaN / a fall / a tie
+    let mut rng = Rng::derive(12, "C12-builder-aliased", &[0]);
+    for round in 0..300u64 {
+        let n = 2 + rng.below(5);
+        let mut t: Vec<f64> = (0..2 * n - 1).map(|i| i as f64 * 0.5 + 1.0).collect();
+        let p = n + rng.below(n - 1);
+        match round % 3 {
+            0 => t[p] = f64::NAN,
+            1 => t[p] = t[p - 1] - 3.0,
+            _ => t[p] = t[if p >= 2 { p - 2 } else { 0 }],
+        }
+        let t = Array1::from(t);
+        let (x, y) = (t.slice(s![..n]), t.slice(s![..;2]));
+        let valid = strictly_rising(&y.to_vec());
+        let d2 = Array2::<f64>::zeros((n, n));
+        ev.add("builder_clause_aliased", 1);
+        verdict(
+            format!("Interp2D x = t[..{n}] (valid), y = t[..;2] = {:?} of the same table", y.to_vec()),
+            guard(|| Interp2D::builder(d2.view()).x(x).y(y).build().is_ok()),
+            valid,
+            ev,
+            7_500_000 + round,
+        );
+    }
+}
+
 fn main() {
     let args = Args::parse("C12");
     let max_pairs: usize = args
@@ -386,6 +482,9 @@ fn main() {
         check_word::<f64>(&word, &mut ev, 1_000_000 + k, &[0]);
         check_word::<i64>(&word, &mut ev, 1_000_000 + k, &[2]);
         ev.add("long_vectors", 1);
+    }
+    if args.only.is_none() && args.shard == 0 {
+        builder_clause(&mut ev);
     }
     let complete = (1..=max_pairs).all(|l| (0..3).all(|p| ev.hist_get("word_lengths_completed", &format!("{l}:{p}")) == 1));
     let expect_words: u64 = (1..=max_pairs as u32).map(|l| 3u64.pow(l)).sum();
